@@ -86,6 +86,34 @@ pub fn transcript(tier: Tier, seed: u64) -> Vec<String> {
             })
             .collect::<Vec<_>>(),
     );
+    {
+        let h20: Vec<[u8; 20]> = {
+            let mut top = [0u8; 20];
+            top[19] = 0x80;
+            let mut one = [0u8; 20];
+            one[0] = 1;
+            vec![[0u8; 20], one, [0xFF; 20], top]
+        };
+        let mut p248 = [0u8; 32];
+        p248[31] = 1;
+        let mut p255 = [0u8; 32];
+        p255[31] = 0x80;
+        let k32: Vec<[u8; 32]> = vec![le32_from_u64(1), le32_from_u64(2), n_plus(-1), n_plus(1), [0xFF; 32], p248, p255];
+        let e32: Vec<[u8; 32]> = vec![[0u8; 32], le32_from_u64(1), le32_from_u64(2), [0xFF; 32], n_plus(-1)];
+        let mut i = 0usize;
+        for pk in &k32 {
+            for v in &k32 {
+                for u in &h20 {
+                    for e in &e32 {
+                        let ss = catch(|| verif_hooks::server_s(*pk, *v, *u, *e)).map(|r| r.map(|s| hex(&s)).unwrap_or("refusedA".into())).unwrap_or("panic".into());
+                        let cs = catch(|| verif_hooks::client_s(*pk, *u, *e, h20[i % 4], 7, N_LE)).map(|r| r.map(|s| hex(&s)).unwrap_or("refusedB".into())).unwrap_or("panic".into());
+                        lines.push(format!("boundary|{i:05}|pk={} v={} u={} e={}\tserverS={ss}\tclientS={cs}", hex(pk), hex(v), hex(u), hex(e)));
+                        i += 1;
+                    }
+                }
+            }
+        }
+    }
     for (i, (bp, x, a, u, what)) in targeted_client_bases(seed).into_iter().enumerate() {
         let cs = catch(|| verif_hooks::client_s(bp, x, a, u, 7, N_LE)).map(|r| r.map(|s| hex(&s)).unwrap_or("refusedB".into())).unwrap_or("panic".into());
         lines.push(format!("targeted-base|{i:04}|{what}\tclientS={cs}"));
